@@ -15,6 +15,9 @@
 -/
 import Luqum.Model.Pretty
 import Luqum.Lemmas.PrettyLemmas
+import Luqum.Lemmas.PrettySpellNl
+import Luqum.Lemmas.PrettySpellEval
+import Luqum.Props.Reparse
 
 namespace Luqum.Props.C18
 open Luqum Luqum.Pretty
@@ -160,5 +163,311 @@ example : prettify {} (.op .and [.op .and [] {}, w "x"] {}) = some "AND x".toLis
   unfold w; pretty_eval
 
 end examples
+
+/-! ### (5) parse-back: the output is accepted by the parser and parses to an equal tree
+
+  The output of the printer is a *re-layout* of the printed tree: the same token texts, in order,
+  where every separator is either kept (inside a chunk printed with `str`; a newline inside such a
+  separator is replaced by the join string, which is blank and not empty) or replaced by a non-empty
+  blank string (between two chunks: the heads and tails of the nodes the printer walks through are
+  dropped, and there is always a join string, a `' '` for a stick marker, between two chunks).
+  Definitions and lemmas in `Luqum/Lemmas/PrettySpell{Seg,Join,Tree,Nl}.lean`. -/
+
+section parseback
+open Luqum.PSpell
+open Luqum.Props.LX (treePieces treeTrail treeGluesOK WsLayout)
+open Luqum.Props.Reparse (printable spelled)
+open Luqum.Props.C01 (respell noBlankBeforeColon)
+
+export Luqum.PSpell (noNewlineLexemes noNewlineLexemesL LooseL Loose1)
+
+/-- `noNewlineLexemes`: no word, phrase, regex or field name of the tree contains a newline
+(finding KF10: `_concatenates` splits every chunk at `\n` and re-joins it with the join string, also
+inside a phrase or a regex; a word or a field name of a parsed tree never contains a newline) -/
+example (k : TermK) (v n : Str) (e : Tree) (l : Lay) :
+    noNewlineLexemes (.term k v l) = !v.contains '\n' ∧
+    noNewlineLexemes (.field n e l) = (!n.contains '\n' && noNewlineLexemes e) ∧
+    noNewlineLexemes (.group .group e l) = noNewlineLexemes e := ⟨rfl, rfl, rfl⟩
+
+/-- `LooseL ps qs`: `qs` has the token kinds and texts of `ps`, blank separators, and a separator
+that is empty in `qs` is empty in `ps` (so a separator of `ps` is kept, or made / replaced by a
+non-empty blank one); `Loose1 ps qs`: the same, except that the first separator of `qs` only has to be
+blank -/
+example (p q : Piece) (ps qs : List Piece) (h1 : p.key = q.key) (h2 : isBlank q.sep = true)
+    (h3 : q.sep = [] → p.sep = []) (h : LooseL ps qs) :
+    LooseL (p :: ps) (q :: qs) ∧ Loose1 (p :: ps) (q :: qs) :=
+  ⟨.cons h1 h2 h3 h, .cons h1 h2 h⟩
+
+/-- **monotonicity of the adjacency condition** (extends `LX.gluesOK_of_seps`): making a separator
+non-empty (blank), or replacing a non-empty separator by another non-empty blank one, never breaks
+`gluesOK`; the first separator and the (blank) trailing separators do not matter -/
+theorem gluesOK_loosen (ps qs : List Piece) (tr tr' : Str) (h : Loose1 ps qs)
+    (htr : isBlank tr = true) (htr' : isBlank tr' = true) (hg : gluesOK ps tr = true) :
+    gluesOK qs tr' = true := gluesOK_looseL htr htr' h hg
+
+/-- what `_concatenates` returns, exactly enough for re-lexing: the chunks in order, each with its
+newlines replaced by non-empty blank strings and preceded by a blank string, and a non-empty blank
+string between two consecutive chunks -/
+theorem prettify_joined (cfg : PrettyCfg) (t : Tree) (out : Str) (h : prettify cfg t = some out) :
+    Joined (chunks (getChains cfg.inlineOps none t)) out :=
+  concatenates_joined cfg _ _ _ _ out h
+
+/-- **Structure theorem, on the pieces.** For a tree with a blank layout whose printed token texts
+contain no newline, the output of the printer, for every configuration, is the spelling of pieces
+that loosen the pieces of `str(tree)` printed with heads and tails (`treePieces .norm t`), with a
+blank trailing separator. -/
+theorem prettify_spelling_pieces (cfg : PrettyCfg) (t : Tree) (out : Str) (hws : WsLayout t)
+    (hnl : ∀ p ∈ treePieces .norm t, '\n' ∉ p.text) (h : prettify cfg t = some out) :
+    ∃ ps tr, out = spell ps tr ∧ Loose1 (treePieces .norm t) ps ∧ isBlank tr = true := by
+  obtain ⟨Ss, h1, h2⟩ := getChains_lay cfg.inlineOps t none
+  have hj := prettify_joined cfg t out h
+  rw [h1] at hj
+  obtain ⟨Q, hQ, hL, hb⟩ := lay_joined Ss (t.pcs .norm []) out h2
+    (LX.tree_seps_blank .norm t hws) hnl hj
+  exact ⟨Q.1, Q.2, hQ, hL, hb⟩
+
+/-- **Structure theorem.** The same with the hypothesis on the lexemes of the tree
+(`noNewlineLexemes`; the `~…` / `^…` tokens have to be valid token texts, which they are for a parsed
+tree). In particular the output has the token kinds and texts of the printed tree, and only blank
+separators. -/
+theorem prettify_spelling (cfg : PrettyCfg) (t : Tree) (out : Str) (hws : WsLayout t)
+    (hnl : noNewlineLexemes t = true) (hnum : validNums .norm t = true)
+    (h : prettify cfg t = some out) :
+    ∃ ps tr, out = spell ps tr ∧ Loose1 (treePieces .norm t) ps ∧ isBlank tr = true ∧
+      ps.map Piece.key = (treePieces .norm t).map Piece.key ∧ (∀ p ∈ ps, isBlank p.sep = true) := by
+  obtain ⟨ps, tr, h1, h2, h3⟩ := prettify_spelling_pieces cfg t out hws
+    (Tree.pcs_noNl .norm t [] hnl hnum) h
+  exact ⟨ps, tr, h1, h2, h3, h2.keys.symm, h2.blank⟩
+
+/-- the adjacency condition passes from the tree to the output of the printer -/
+theorem prettify_gluesOK (t : Tree) (ps : List Piece) (tr : Str)
+    (hws : WsLayout t) (hL : Loose1 (treePieces .norm t) ps) (htr : isBlank tr = true)
+    (hg : treeGluesOK .norm t = true) : gluesOK ps tr = true :=
+  gluesOK_loosen _ _ _ _ hL (LX.tree_seps_blank .norm t hws).2 htr hg
+
+/-- **parse-back for any tree** (built by a program or returned by the parser): if the tree has a
+blank layout, a `Parseable` re-spelled form, valid token texts and the adjacency condition (the
+hypotheses of `Reparse.reparse_printed`), and no newline in a lexeme, then for every configuration the
+output of the printer parses, and the result is equal (`==`) to the tree -/
+theorem prettify_parse_back_of_tree (cfg : PrettyCfg) (u : Tree) (out : Str) (hws : WsLayout u)
+    (hp : C03c.Parseable (respell u) = true)
+    (hvalid : ∀ p ∈ treePieces .norm u, validTok p.kind p.text = true)
+    (hglue : treeGluesOK .norm u = true)
+    (hnl : ∀ p ∈ treePieces .norm u, '\n' ∉ p.text)
+    (h : prettify cfg u = some out) :
+    ∃ r, parse out = .ok r ∧ r.eqv u = true := by
+  obtain ⟨ps, tr, rfl, hL, htr⟩ := prettify_spelling_pieces cfg u out hws hnl h
+  have hg := prettify_gluesOK u ps tr hws hL htr hglue
+  have hv : ∀ p ∈ ps, validTok p.kind p.text = true := by
+    intro p hp'
+    have : Piece.key p ∈ (treePieces .norm u).map Piece.key := by
+      rw [hL.keys]; exact List.mem_map_of_mem hp'
+    obtain ⟨p', hp'', he⟩ := List.mem_map.1 this
+    simp only [Piece.key, Prod.mk.injEq] at he
+    rw [← he.1, ← he.2]; exact hvalid p' hp''
+  have hc := LX.chainOK_of_gluesOK ps tr htr hL.blank hv hg
+  obtain ⟨hl, hk⟩ := LX.spelling ps tr htr hL.blank hv hc
+  have hk' : (lex (spell ps tr)).1.map tokKey = yield (respell u) := by
+    rw [hk]
+    have := Reparse.keys_spelled .norm u
+    simp only [spelled] at this
+    rw [← this, hL.keys]; rfl
+  obtain ⟨r, hr, he⟩ := C03c.parse_complete_str (spell ps tr) (respell u) hp hl hk'
+  exact ⟨r, hr, C09.eqv_trans _ _ _ he (Reparse.eqv_spelled .norm u)⟩
+
+/-- the same with the decidable hypotheses of `Reparse.reparse_str` (`Reparse.printable`) -/
+theorem prettify_parse_back_of_printable (cfg : PrettyCfg) (u : Tree) (out : Str)
+    (hpr : printable u = true) (hnl : noNewlineLexemes u = true)
+    (h : prettify cfg u = some out) :
+    ∃ r, parse out = .ok r ∧ r.eqv u = true := by
+  simp only [printable, Bool.and_eq_true] at hpr
+  obtain ⟨⟨⟨⟨⟨h1, h2⟩, h3⟩, h4⟩, h5⟩, h6⟩ := hpr
+  have hvn := Reparse.validNums_of_numsOK u h4
+  exact prettify_parse_back_of_tree cfg u out h1 (Reparse.parseable_respell u h2 h3 h4)
+    (Reparse.pieces_valid .norm u h5 hvn) h6 (Tree.pcs_noNl .norm u [] hnl hvn) h
+
+/-- **C18, parse-back clause** (partial). For every parsed query and every printer setting
+(`indent`, `max_len`, `inline_ops`), the pretty-printed text is accepted by the parser and parses to a
+tree equal (`==`) to the original.
+
+What is missing for the full property (both hypotheses are necessary, see the witnesses below):
+* `noBlankBeforeColon` (known findings KF1 + KF8): a blank before the `:` of a search field is lost;
+  for a field that is *inside* a chunk printed with `str` (e.g. under `NOT`, `+`, `-`, a boost) the
+  name and the value may then lex as one time-like word (`NOT T12 :30` is printed `NOT T12:30`).
+  For a field the printer walks through the hypothesis is not needed in fact (`name:` is followed by
+  a `' '`), but the tree-level glue condition `Reparse.parse_gluesOK` is only available under it;
+* `noNewlineLexemes` (known finding KF10): a newline inside a phrase or a regex is replaced by the
+  join string. -/
+theorem prettify_parse_back_partial (cfg : PrettyCfg) (q : Str) (t : Tree) (out : Str)
+    (hp : parse q = .ok t) (hk : noBlankBeforeColon (lex q).1 = true)
+    (hnl : noNewlineLexemes t = true) (h : prettify cfg t = some out) :
+    ∃ r, parse out = .ok r ∧ r.eqv t = true :=
+  prettify_parse_back_of_printable cfg t out (Reparse.parse_printable q t hp hk) hnl h
+
+/-- a parsed tree has no operand-less operation (it is in canonical form) -/
+theorem parse_noEmptyOp (q : Str) (t : Tree) (hp : parse q = .ok t) : NoEmptyOp t = true :=
+  canon_noEmptyOp false t (Reparse.parse_canon q t hp)
+
+/-- the printer never fails on a parsed tree -/
+theorem prettify_parsed_isSome (cfg : PrettyCfg) (q : Str) (t : Tree) (hp : parse q = .ok t) :
+    (prettify cfg t).isSome := prettify_isSome cfg t (parse_noEmptyOp q t hp)
+
+/-- **C18, parse-back clause with totality**: a parsed tree (up to KF1 / KF10) is printed, for every
+configuration, and the text parses back to an equal tree -/
+theorem prettify_parsed_total (cfg : PrettyCfg) (q : Str) (t : Tree)
+    (hp : parse q = .ok t) (hk : noBlankBeforeColon (lex q).1 = true)
+    (hnl : noNewlineLexemes t = true) :
+    ∃ out r, prettify cfg t = some out ∧ parse out = .ok r ∧ r.eqv t = true := by
+  have := prettify_parsed_isSome cfg q t hp
+  rw [Option.isSome_iff_exists] at this
+  obtain ⟨out, ho⟩ := this
+  obtain ⟨r, hr, he⟩ := prettify_parse_back_partial cfg q t out hp hk hnl ho
+  exact ⟨out, r, ho, hr, he⟩
+
+end parseback
+
+/-! ### (6) parse-back: non-vacuity and negative witnesses (kernel-checked) -/
+
+section parseback_examples
+open Luqum.Props.C01 (noBlankBeforeColon)
+
+/-- nested operations (implicit, AND, OR), a group, a field group, a range, a phrase with a blank,
+the boost `2.50` (printed `2.5`), a fuzzy, a field under `NOT` (printed with `str`) -/
+private def pbInput : Str :=
+  "a  AND (b OR f:(x \"y z\" AND w)) [1 TO  3]^2.50 -c~ NOT g:d".toList
+
+private def pbCfgs : List PrettyCfg :=
+  [{}, { maxLen := 10 }, { maxLen := 10, inlineOps := true }, { indent := 2, maxLen := 1 }]
+
+private theorem of_parse_match {q : Str} {t : Tree} {P : Tree → Bool}
+    (h : (match parse q with | .ok t => P t | .error _ => false) = true) (hp : parse q = .ok t) :
+    P t = true := by
+  rw [hp] at h; exact h
+
+/-- the hypotheses of `prettify_parse_back_partial` hold for the input -/
+private theorem pbInput_hyps :
+    noBlankBeforeColon (lex pbInput).1 = true ∧
+    (match parse pbInput with | .ok t => noNewlineLexemes t | .error _ => false) = true := by
+  decide +kernel
+
+/-- **non-vacuity**: the theorem applied to the input, for four settings (default; lines broken;
+lines broken with inline operators; a narrow width and another indentation) -/
+example : ∀ t, parse pbInput = .ok t → ∀ cfg ∈ pbCfgs,
+    ∃ out r, prettify cfg t = some out ∧ parse out = .ok r ∧ r.eqv t = true :=
+  fun t hp cfg _ => prettify_parsed_total cfg pbInput t hp pbInput_hyps.1
+    (of_parse_match pbInput_hyps.2 hp)
+
+/-- what is printed (as the implementation prints it), and, by evaluation, that each text parses
+back to an equal tree -/
+example :
+    (match parse pbInput with
+     | .ok t =>
+       decide (pbCfgs.map (fun cfg => prettify cfg t) = [
+         some "a AND ( b OR f: ( x \"y z\" AND w ) ) [1 TO  3]^2.5 -c~  NOT g:d".toList,
+         some ("    a\n    AND\n    (\n        b\n        OR\n        f: (\n            x\n".toList ++
+           "                \"y z\"\n                AND\n                w\n        )\n    )\n".toList ++
+           "[1 TO  3]^2.5\n-c~ \nNOT g:d".toList),
+         some ("    a AND\n    (\n        b OR\n        f: (\n            x     \"y z\" AND\n".toList ++
+           "                w ) ) [1 TO  3]^2.5 -c~  NOT g:d".toList),
+         some ("  a\n  AND\n  (\n    b\n    OR\n    f: (\n      x\n        \"y z\"\n        AND\n".toList ++
+           "        w\n    )\n  )\n[1 TO  3]^2.5\n-c~ \nNOT g:d".toList)]) &&
+       pbCfgs.all (fun cfg =>
+         match prettify cfg t with
+         | some out => (match parse out with | .ok r => r.eqv t | .error _ => false)
+         | none => false)
+     | .error _ => false) = true := by
+  simp only [← PSpell.prettifyK_eq]
+  decide +kernel
+
+/-- the structure theorem on the input: the pieces of the narrow output loosen those of the tree
+(checked by evaluation on the lexed output: same keys, and only the first separator of the output is
+empty where the tree has a non-empty one) -/
+example :
+    (match parse pbInput with
+     | .ok t =>
+       (match prettify { maxLen := 10 } t with
+        | some out =>
+          decide ((piecesOf (lex out).1).map Piece.key = (LX.treePieces .norm t).map Piece.key) &&
+          decide (out = spell (piecesOf (lex out).1) (trailOf (lex out).1)) &&
+          ((piecesOf (lex out).1).zip (LX.treePieces .norm t)).tail.all
+            (fun pq => !pq.1.sep.isEmpty || pq.2.sep.isEmpty)
+        | none => false)
+     | .error _ => false) = true := by
+  simp only [← PSpell.prettifyK_eq]
+  decide +kernel
+
+/-- **KF10, negative witness**: `noNewlineLexemes` is needed. The phrase `"a\nb"` is printed
+`"a b"` with the default setting (the chunk is split at the newline and re-joined with `' '`): the
+text parses, to a different phrase. With a narrow width the join string is a newline and the phrase
+survives. -/
+example :
+    let q := "\"a\nb\" OR c".toList
+    noBlankBeforeColon (lex q).1 = true ∧
+    (match parse q with
+     | .ok t =>
+       !noNewlineLexemes t &&
+       decide (prettify {} t = some "\"a b\" OR c".toList) &&
+       (match parse "\"a b\" OR c".toList with | .ok r => !r.eqv t | .error _ => false) &&
+       decide (prettify { maxLen := 1 } t = some "\"a\nb\"\nOR\nc".toList) &&
+       (match parse "\"a\nb\"\nOR\nc".toList with | .ok r => r.eqv t | .error _ => false)
+     | .error _ => false) = true := by
+  simp only [← PSpell.prettifyK_eq]
+  decide +kernel
+
+/-- **KF1 + KF8, negative witness**: `noBlankBeforeColon` is needed. In `NOT T12 :30` the field is
+inside a chunk printed with `str`, which loses the blank before the `:` (KF1); the output
+`NOT T12:30` lexes `T12:30` as one word (KF8), for every setting. -/
+example :
+    let q := "NOT T12 :30".toList
+    noBlankBeforeColon (lex q).1 = false ∧
+    (match parse q with
+     | .ok t =>
+       noNewlineLexemes t &&
+       pbCfgs.all (fun cfg =>
+         decide (prettify cfg t = some "NOT T12:30".toList)) &&
+       (match parse "NOT T12:30".toList with | .ok r => !r.eqv t | .error _ => false)
+     | .error _ => false) = true := by
+  simp only [← PSpell.prettifyK_eq]
+  decide +kernel
+
+/-- ... but the hypothesis is not necessary for a field the printer walks through: `xT30\n:34`
+(blank before the `:`; `str` prints `xT30:34`, one word, KF8) is printed `xT30: 34`, which parses
+back to an equal tree -/
+example :
+    let q := "xT30\n:34".toList
+    noBlankBeforeColon (lex q).1 = false ∧
+    (match parse q with
+     | .ok t =>
+       decide (t.str = "xT30:34".toList) &&
+       (match parse t.str with | .ok r => !r.eqv t | .error _ => false) &&
+       pbCfgs.all (fun cfg => decide (prettify cfg t = some "xT30: 34".toList)) &&
+       (match parse "xT30: 34".toList with | .ok r => r.eqv t | .error _ => false)
+     | .error _ => false) = true := by
+  simp only [← PSpell.prettifyK_eq]
+  decide +kernel
+
+/-- a tree built by hand (not a parse result) to which `prettify_parse_back_of_printable` applies;
+heads and tails of the walked nodes are dropped by the printer, those inside a chunk printed with `str`
+(the blank before `b`) are kept -/
+private def pbTree : Tree :=
+  .op .and [
+    .term .word "a".toList { head := " ".toList, tail := "  ".toList },
+    .group .group (.op .or [
+      .term .phrase "\"x y\"".toList { tail := " ".toList },
+      .boost (.term .word "b".toList { head := " ".toList })
+        { val := { coeff := 25, exp := -1 }, raw := "2.50".toList } {}] { head := "\n".toList })
+      { head := " ".toList, tail := "\t".toList }] {}
+
+example : ∀ cfg out, prettify cfg pbTree = some out → ∃ r, parse out = .ok r ∧ r.eqv pbTree = true :=
+  fun cfg out h => prettify_parse_back_of_printable cfg pbTree out (by decide +kernel)
+    (by decide +kernel) h
+
+example : pbTree.strHT = " a  AND (\n\"x y\" OR b^2.5)\t".toList ∧
+    prettify {} pbTree = some "a AND ( \"x y\" OR  b^2.5 )".toList ∧
+    prettify { maxLen := 5 } pbTree = some "a\nAND\n(\n    \"x y\"\n    OR\n     b^2.5\n)".toList := by
+  simp only [← PSpell.prettifyK_eq]
+  decide +kernel
+
+end parseback_examples
 
 end Luqum.Props.C18
